@@ -10,7 +10,7 @@ from vf import iso, pair
 
 META = dict(
     title="sendall delivers everything or raises",
-    level="fault_enumeration",
+    level="exploration",
     design_ref="§3 C25",
     technique="state x mode x window matrix on real channels; outcome oracle from the sender's tap (bytes the calling "
               "thread put on the wire) plus the logical livelock rule (two consecutive send()->0 inside one sendall)",
